@@ -1,14 +1,14 @@
 SPECIFICATION Spec
 CONSTANTS Callers = {c1, c2}
  MaxTick = 3
- MaxRot = 2
+ MaxRot = 0
  MaxAtt = 3
  FreshKey = TRUE
  MaxJunk = 0
  MaxClose = 0
- MaxBad = 0
+ MaxBad = 1
  Kinds = {"obj"}
- Dev = {}
-INVARIANTS WireIdsIncrease SeqNoRules OwnResult TypedVector LoopAlive AcceptedNeverResent SaltPersisted NoStallNotify NoStallDeliver AckedAll
+ Dev = {"CleanupLastIdOnEncodeFail"}
+INVARIANTS OwnResult TypedVector LoopAlive
 PROPERTIES AllDone LoopKeepsReading
 VIEW view
